@@ -17,6 +17,7 @@ class LA:                   # class with attributes for IsAttr
 def pos(v): return isinstance(v, int) and v > 0
 def nonempty(v): return bool(v)
 def even(v): return isinstance(v, int) and v % 2 == 0
+def firstpos(v): return isinstance(v[0], int) and v[0] > 0          # raises IndexError on an empty sequence: only safe behind a non-emptiness validator
 NAN = float('nan')         # an object that is not equal to itself (IsEqual[NAN] means `== NAN`, which NAN itself does not satisfy)
 class NeverEq:
     __hash__ = object.__hash__
